@@ -512,7 +512,11 @@ def apply_forms(kw, conn, forms):
             return np.str_(v)
         if how == 'positional':
             return v
-        return getattr(np, how.split('.')[1])(v)
+        r = getattr(np, how.split('.')[1])(v)
+        # a call form must carry the same value: np.float32(0.999999999999) is exactly 1.0,
+        # which would turn a 'nothing splits' contrast into the documented contrast=1 no-op
+        # (compare as Python numbers: np.float32(1) == 0.999999999999 is True under NEP 50 weak scalars)
+        return r if r.item() == v else (np.float64(v) if isinstance(v, float) else np.int64(v))
 
     for k in ('npixels', 'nlevels', 'contrast', 'connectivity', 'mode'):
         kw[k] = conv(kw[k], forms[k])
